@@ -33,7 +33,7 @@ def run_one(m, tier):
         for l in p.stdout.splitlines():
             if l.startswith("VIOLATION") and "replay=" in l:
                 rp = l.split("replay=")[1].strip()
-                if os.path.exists(rp) and "/replays/" in rp:
+                if os.path.exists(rp) and "/alt/replays/" in rp:
                     os.remove(rp)
         return (name, prop, verdict, dt, "\n".join(lines[:3]) if verdict != "SURVIVED" else p.stdout[-800:])
     finally:
